@@ -399,6 +399,7 @@ struct Run<'a> {
     readers: HashMap<u64, ReaderHandle>,
     cid_off: u64,
     last_cid: u64,
+    crashes: usize,
     events: Arc<Mutex<Vec<(String, Vec<u64>)>>>,
     /// fine-grained schedules: the log worker's step runs on its own thread and is held at
     /// BeginRecord (after the deferral check, before the plan)
@@ -504,6 +505,11 @@ impl<'a> Run<'a> {
                 want_entries += u.pad(id, o["kids"][i].as_array().unwrap().len()) as u64;
             }
         }
+        // slots claimed by commits lost in a crash stay allocated (model: leaked), with their leaves
+        for l in o["leaked"].as_array().map(|a| a.as_slice()).unwrap_or(&[]) {
+            let id = l.as_u64().unwrap();
+            want_entries += u.pad(id, o["kids"][(id - 1) as usize].as_array().unwrap().len()) as u64;
+        }
         match self.db().get_num_column_value_entries(0) {
             Ok(n) =>
                 if n != want_entries {
@@ -550,12 +556,89 @@ impl<'a> Run<'a> {
         Ok(())
     }
 
+    /// value tables of the tree column when drained: the free list is well formed, every slot below
+    /// the fill mark is free, a live node / leaf, a stored root, or one of the slots the model says
+    /// were lost in a crash; returns the number of orphan slots (neither free nor live)
+    fn check_structure(&mut self, o: &J) -> Result<u64, String> {
+        let d = self.db().verif_dump(0).map_err(|e| format!("dump: {e}"))?;
+        let mut live: HashSet<(u8, u64)> = HashSet::new();
+        for a in self.bind.id2addr.values().chain(self.bind.pads.values().flatten()) {
+            live.insert(((a & 0xff) as u8, a >> 8));
+        }
+        let mut roots: HashSet<(u8, u64)> = HashSet::new();
+        for ix in d.indexes.iter() {
+            for (_c, _s, _pk, tier, off) in ix.entries.iter() {
+                roots.insert((*tier, *off));
+            }
+        }
+        let mut orphans = 0u64;
+        for t in d.tables.iter().filter(|t| t.exists) {
+            if t.mem_filled != t.file_filled || t.mem_last_removed != t.file_last_removed {
+                return Err(format!("tier {}: header in memory (filled {}, free head {}) differs from the file ({}, {}) when drained",
+                                   t.tier, t.mem_filled, t.mem_last_removed, t.file_filled, t.file_last_removed))
+            }
+            // free list
+            let mut on_list: HashSet<u64> = HashSet::new();
+            let mut next = t.file_last_removed;
+            while next != 0 {
+                if next >= t.file_filled || next as usize > t.slots.len() {
+                    return Err(format!("tier {}: free list leaves the table (slot {next}, filled {})", t.tier, t.file_filled))
+                }
+                if !on_list.insert(next) {
+                    return Err(format!("tier {}: free list is cyclic at slot {next}", t.tier))
+                }
+                let (k, n) = crate::dump::classify(t, &t.slots[next as usize - 1]);
+                if k != "free" {
+                    return Err(format!("tier {}: free list runs through slot {next} which is in use", t.tier))
+                }
+                next = n;
+            }
+            if t.multipart {
+                continue
+            }
+            for (i, s) in t.slots.iter().enumerate() {
+                let idx = i as u64 + 1;
+                let (k, _) = crate::dump::classify(t, s);
+                let at = (t.tier, idx);
+                if k == "free" {
+                    if live.contains(&at) || roots.contains(&at) {
+                        return Err(format!("tier {} slot {idx}: a live node / root is stored in a freed slot", t.tier))
+                    }
+                    if !on_list.contains(&idx) {
+                        orphans += 1;
+                    }
+                } else {
+                    if on_list.contains(&idx) {
+                        return Err(format!("tier {} slot {idx}: used slot on the free list", t.tier))
+                    }
+                    if !live.contains(&at) && !roots.contains(&at) {
+                        orphans += 1;
+                    }
+                }
+            }
+            for at in live.iter().chain(roots.iter()).filter(|a| a.0 == t.tier) {
+                if at.1 == 0 || at.1 >= t.file_filled {
+                    return Err(format!("tier {} slot {}: live node / root beyond the fill mark {}", t.tier, at.1, t.file_filled))
+                }
+            }
+        }
+        let mut want = 0u64;
+        for l in o["leaked"].as_array().map(|a| a.as_slice()).unwrap_or(&[]) {
+            let id = l.as_u64().unwrap();
+            want += 1 + self.u.pad(id, o["kids"][(id - 1) as usize].as_array().unwrap().len()) as u64;
+        }
+        if !self.u.has_multipart() && orphans != want {
+            return Err(format!("{orphans} value-table slots are neither free nor part of a live tree, the specification accounts for {want}"))
+        }
+        Ok(orphans)
+    }
+
     fn drain(&self) -> Result<(), String> {
         let db = self.db();
         db.flush_logs().map_err(|e| format!("flush_logs: {e}"))?;
         // an enact call that meets the end of a log file returns false once: go on with the next file
         for _ in 0..6 {
-            while db.verif_enact_one().map_err(|e| format!("enact: {e}"))? {}
+            while enact_one_guarded(db).map_err(|e| format!("enact: {e}"))? {}
         }
         db.clean_logs().map_err(|e| format!("clean_logs: {e}"))?;
         Ok(())
@@ -684,7 +767,7 @@ impl<'a> Run<'a> {
                 let db = self.db();
                 match st["w"].as_str().unwrap() {
                     "flush" => db.flush_logs().map(|_| ()).map_err(|e| format!("flush_logs: {e}")),
-                    "enact" => db.verif_enact_one().map(|_| ()).map_err(|e| format!("enact: {e}")),
+                    "enact" => enact_one_guarded(db).map(|_| ()).map_err(|e| format!("enact: {e}")),
                     _ => db.clean_logs().map(|_| ()).map_err(|e| format!("clean_logs: {e}")),
                 }
             },
@@ -695,6 +778,24 @@ impl<'a> Run<'a> {
                     Ok(d) => drop(d),
                     Err(_) => return Err("harness: database handle still shared at restart".into()),
                 }
+                self.cid_off = self.last_cid;
+                self.open()
+            },
+            "Crash" => {
+                // the process dies here: the directory as it is now is what the next open sees
+                self.crashes += 1;
+                let img = self.dir.with_file_name(format!("{}_c{}", self.dir.file_name().unwrap().to_string_lossy(), self.crashes));
+                let _ = std::fs::remove_dir_all(&img);
+                copy_dir(&self.dir, &img).map_err(|e| format!("image copy: {e}"))?;
+                let db = self.db.take().unwrap();
+                match Arc::try_unwrap(db) {
+                    Ok(d) => {
+                        let _ = catch(move || drop(d));
+                    },
+                    Err(_) => return Err("harness: database handle still shared at crash".into()),
+                }
+                let _ = std::fs::remove_dir_all(&self.dir);
+                self.dir = img;
                 self.cid_off = self.last_cid;
                 self.open()
             },
@@ -742,11 +843,12 @@ pub fn cmd_replay(args: &HashMap<String, String>) -> i32 {
         let obs = b["obs"].as_array().unwrap();
         let u = Univ { seed: mix(seed, idx as u64), v: v.clone() };
         let dir = fresh_dir(&root, &format!("mt{idx}"));
-        let mut run = Run { u: &u, dir: dir.clone(), db: None, bind: Binding::default(), readers: HashMap::new(), cid_off: 0, last_cid: 0,
+        let mut run = Run { u: &u, dir: dir.clone(), db: None, bind: Binding::default(), readers: HashMap::new(), cid_off: 0, last_cid: 0, crashes: 0,
                             events: Arc::new(Mutex::new(Vec::new())), gate: Arc::new(Mutex::new(None)), worker: None };
         run.install_sink();
         let mut viol: Vec<J> = Vec::new();
         let mut nontrivial = false;
+        let mut leak_seen = 0u64;
         if let Err(e) = run.open() {
             viol.push(json!({"step": 0, "a": "Open", "what": e}));
         } else {
@@ -754,12 +856,19 @@ pub fn cmd_replay(args: &HashMap<String, String>) -> i32 {
             let nx = obs.first().map(|o| o["x"].as_array().unwrap().len()).unwrap_or(0);
             for (i, (st, o)) in steps.iter().zip(obs.iter()).enumerate() {
                 let a = st["a"].as_str().unwrap().to_string();
+                if a == "Crash" && o["qlen"].as_u64() == Some(0) && i > 0 && obs[i - 1]["qlen"].as_u64().unwrap_or(0) > 0 {
+                    nontrivial = true;
+                }
                 if a == "Defer" || (a == "Commit" && st["tx"]["tree"]["incs"].as_array().map_or(false, |x| !x.is_empty())) {
                     nontrivial = true;
                 }
                 let r = run.step(st).and_then(|_| run.observe(o, nt, nx)).and_then(|_| {
                     if o["qlen"].as_u64() == Some(0) && (a == "Restart" || i + 1 == steps.len() || i % 5 == 4) && run.readers.is_empty() {
-                        run.drain().and_then(|_| run.check_counts(o))
+                        run.drain().and_then(|_| run.check_counts(o)).and_then(|_| run.check_structure(o)).map(|orph| {
+                            if orph > 0 {
+                                leak_seen = orph;
+                            }
+                        })
                     } else {
                         Ok(())
                     }
@@ -781,6 +890,9 @@ pub fn cmd_replay(args: &HashMap<String, String>) -> i32 {
                 }
             }
         }
+        if leak_seen > 0 && viol.is_empty() {
+            viol.push(json!({"step": steps.len(), "a": "Crash", "what": format!("slot leak after crash: {leak_seen} value-table slots claimed at commit time by transactions that were lost in the crash are neither in use nor on the free list")}));
+        }
         for (_, h) in run.readers.drain() {
             h.unlock();
         }
@@ -792,6 +904,7 @@ pub fn cmd_replay(args: &HashMap<String, String>) -> i32 {
         }
         parity_db::verif::set_sink(None);
         drop(run.db.take());
+        let _ = std::fs::remove_dir_all(&run.dir);
         let _ = std::fs::remove_dir_all(&dir);
         writeln!(outf, "{}", json!({"i": idx, "nontrivial": nontrivial, "violations": viol})).unwrap();
     }
@@ -802,6 +915,29 @@ pub fn cmd_replay(args: &HashMap<String, String>) -> i32 {
 /// (deferral check of a dereference; then a reader locks the tree, a writer commits a tree that
 /// reuses one of its nodes, the reader unlocks; then the dereference walk runs).
 /// Prints one JSON line: {"which", "reached", "lock_blocked", "violations": [..]}.
+pub fn cmd_claimleak(_args: &HashMap<String, String>) -> i32 {
+    let v = Variant::parse("");
+    let u = Univ { seed: 5, v };
+    let root = scratch_root();
+    let dir = fresh_dir(&root, "leak");
+    let db = Db::open_or_create(&mt_options(&dir, &u.v, false)).expect("open");
+    let leaf = |id: u64| NodeRef::New(NewNode { data: u.node_data(id), children: vec![] });
+    // B: plain write, queued first; A: tree insertion claims 2 nodes at commit time
+    db.commit_changes(vec![(1u8, Operation::Set(u.xkey(1), u.xval(1)))]).unwrap();
+    db.commit_changes(vec![(0u8, Operation::InsertTree(u.tkey(1), NewNode { data: u.root_data(1), children: vec![leaf(1), leaf(2)] }))]).unwrap();
+    println!("entries after commit (claimed): {:?}", db.get_num_column_value_entries(0));
+    db.process_commits().unwrap(); // B only
+    db.flush_logs().unwrap();
+    let img = fresh_dir(&root, "leak_img");
+    copy_dir(&dir, &img).unwrap();
+    let _ = std::fs::remove_file(img.join("lock"));
+    let db2 = Db::open(&mt_options(&img, &u.v, false)).expect("open image");
+    println!("image: entries {:?} x {:?} tree {:?}", db2.get_num_column_value_entries(0), db2.get(1, &u.xkey(1)).map(|v| v.is_some()), db2.get_tree(0, &u.tkey(1)).map(|t| t.is_some()));
+    let d = db2.verif_dump(0).unwrap();
+    for t in d.tables.iter().filter(|t| t.exists) { println!("tier {} file_filled {} free_head {} mem_filled {}", t.tier, t.file_filled, t.file_last_removed, t.mem_filled); }
+    0
+}
+
 pub fn cmd_scenario(args: &HashMap<String, String>) -> i32 {
     use crate::workers::Gate;
     use std::time::Duration;
